@@ -164,6 +164,16 @@ func (f *Frame) doCall(instr ssa.Instruction, c *ssa.CallCommon, args []Value, r
 			if len(props) == 0 {
 				props = e.contract.Props
 			}
+			// vacuity check: the call site must be reachable, otherwise the clause says nothing (deferred calls are
+			// replayed at every exit under their registration guard; those instances are not sites of their own)
+			if top.inDefers == 0 {
+			e.oblNames["cover:"+oname]++
+			cvName := oname
+			if k := e.oblNames["cover:"+oname]; k > 1 {
+				cvName = fmt.Sprintf("%s~%d", oname, k-1)
+			}
+			e.covers = append(e.covers, &Obligation{Name: strings.Replace(cvName, "#site-assert:", "#cover:site:", 1), Kind: "cover", Goal: f.guard, CmdIdx: len(e.cmds), Cover: true, Props: props})
+			}
 			o := e.addObl("site-assert", oname, f.guard, t, props)
 			o.Text = site.Cl.Text
 			o.Pos = e.p.posString(instr.Pos())
@@ -777,6 +787,22 @@ func (f *Frame) havocArgs(c *ssa.CallCommon, args []Value) {
 			e.assumeExisting(f.st, tTrue, fv, a.Addr.typ)
 			e.storeAddr(f.st, a.Addr, fv)
 			continue
+		}
+		if mi, ok := c.Args[i].(*ssa.MakeInterface); ok {
+			// a pointer / slice / map converted to an interface right at the call (json.Unmarshal(data, &x),
+			// decoder.Decode(&x)): the callee reaches the pointee through the interface value
+			switch mi.X.Type().Underlying().(type) {
+			case *types.Pointer, *types.Slice, *types.Map:
+				iv := f.val(mi.X)
+				if iv.Addr != nil {
+					fv := e.havoc("esc", e.sortOf(iv.Addr.typ))
+					e.assumeExisting(f.st, tTrue, fv, iv.Addr.typ)
+					e.storeAddr(f.st, iv.Addr, fv)
+				} else if iv.T.S != "" && (writes || !isByteSlice(mi.X.Type())) {
+					f.havocValue(iv.T, mi.X.Type(), 0)
+				}
+				continue
+			}
 		}
 		if a.T.S == "" {
 			continue
